@@ -7,6 +7,6 @@ trap 'cd /repo && git reset -q && git checkout -q HEAD -- . && git clean -fdq' E
 git apply --3way "$D/patch.diff" >/dev/null 2>&1 || { echo "patch does not apply"; git checkout -q HEAD -- .; exit 2; }
 (cd /verif && VERIF_OUT=/dev/shm/verif-try ./vcheck $ID $TIER) > /tmp/try_seed.$$.log 2>&1; rc=$?
 git checkout -q HEAD -- . ; git clean -fdq
-grep -A1 "^VIOLATION\|^KNOWN\|^SUMMARY\|^INTERNAL" /tmp/try_seed.$$.log | cut -c1-240
+grep -a -A1 "^VIOLATION\|^KNOWN\|^SUMMARY\|^INTERNAL" /tmp/try_seed.$$.log | cut -c1-240
 echo "rc=$rc"; rm -f /tmp/try_seed.$$.log
 exit $rc
